@@ -372,11 +372,25 @@ static void rt_history(vt::Rng& r) {
     } else if (c < 85) {
       string blk;
       for (int k = (int)r.below(6); k > 0; k--) blk.push_back((char)r.below(256));
+      // a third of the raw blocks is a BACK-REFERENCE: the source is a slice of the writer's own buffer (as an LZ-style
+      // copy does), handed over as pointer + size or as the buffer string itself; the append may have to reallocate
+      int self = sw.size() ? (int)r.below(3) : 0;
+      if (self == 1) {
+        size_t from = r.below(sw.size()), n = 1 + r.below(sw.size() - from);
+        if (r.chance(30)) from = 0, n = sw.size();
+        blk = sw.str().substr(from, n);
+        items.push_back({1, sw.size(), 0, blk.size()});
+        if (from == 0 && n == sw.size() && r.chance(50))
+          sw.write(sw.str());
+        else
+          sw.write(sw.str().data() + from, n);
+      } else {
       items.push_back({1, sw.size(), 0, blk.size()});
       if (r.chance(50))
         sw.write(blk);
       else
         sw.write(blk.data(), blk.size());
+      }
       vt::J j;
       j.str("e", "swrite").raw("data", js(blk)).raw("bytes", js(sw.str()));
       tr.emit(j);
@@ -669,6 +683,7 @@ static void bounds_sweep(vt::Rng& r, size_t n) {
   auto owned = make_shared<string>((const char*)buf, n);
   int ctor_kind = (int)r.below(3);
   StringReader rd = ctor_kind == 0 ? StringReader(buf, n) : ctor_kind == 1 ? StringReader(*owned) : StringReader(owned);
+  if (ctor_kind == 2) owned.reset();  // the reader shares ownership: the caller's reference may go away
   ev_rnew("data", buf, n);
   auto B = boundary_set(n);
   // positional typed reads: one accessor per width class at every boundary offset
@@ -763,6 +778,7 @@ static void cursor_history(vt::Rng& r) {
   auto owned = make_shared<string>((const char*)buf, n);
   int ctor_kind = (int)r.below(3);
   StringReader rd = ctor_kind == 0 ? StringReader(buf, n) : ctor_kind == 1 ? StringReader(*owned) : StringReader(owned);
+  if (ctor_kind == 2) owned.reset();  // the reader shares ownership: the caller's reference may go away
   ev_rnew("data", buf, n);
   auto B = boundary_set(n);
   auto sz = [&]() -> uint64_t { return r.chance(75) ? r.below(n + 3) : B[r.below(B.size())]; };
